@@ -5,8 +5,10 @@ import (
 	"go/ast"
 	"go/token"
 	"go/types"
+	"os"
 	"sort"
 	"strings"
+	"time"
 
 	"golang.org/x/tools/go/packages"
 )
@@ -26,8 +28,13 @@ func init() {
 			"fields that are deliberately not persisted (listed as info: IsSuperUser is persisted through the separate SuperUser vector, IsEphemeral users are never persisted), " +
 			"and OverwriteUsersAndGrantData (reported as info only: it documents that it restores users and grants only)",
 		Run: func(c *Ctx) {
+			t0 := time.Now()
 			pairs := runC41(c, "sql/mysql_db", "sql/mysql_db/serial", "MySQLDb.Persist", "MySQLDb.LoadData", 45, 41)
+			t1 := time.Now()
 			runC41Tree(c, "sql/mysql_db", "PrivilegeSet", pairs, c41tFloors{})
+			if os.Getenv("VCHK_DUMP") != "" {
+				fmt.Printf("TIMING C41 F-rules %v, tree rules %v\n", t1.Sub(t0), time.Since(t1))
+			}
 		},
 		Fixture: func(c *Ctx, fx *Prog) {
 			expectFixture(c, fx, "c41: unread field, unwritten field and swapped fields must be reported",
@@ -41,8 +48,21 @@ func init() {
 				func(fc *Ctx) {
 					runC41(fc, "testdata/c41/db", "testdata/c41/db/serial", "Store.Persist", "Store.LoadData", 0, 0)
 				})
+			expectFixture(c, fx, "c41 tree: a predicate, a child filter, the writer+loader, a union, a copy, a reset and a remove that each forget a collection must be reported",
+				[]string{
+					"C41-P1a:Set.NonEmpty:global", "C41-P1a:Set.NonEmpty:named", "C41-P1a:DbSet.NonEmpty:procs",
+					"C41-P1b:Set.NonEmpty:DbSet", "C41-P1b:Set.list:DbSet",
+					"C41-P2a:DbSet.procs", "C41-P2a:ProcSet.privs",
+					"C41-P2b:Set.Clone:named", "C41-P2b:DbSet.union:procs",
+					"C41-P2c:DbSet.clear",
+					"C41-P3:Set.AddTab/RemoveTab",
+				},
+				func(fc *Ctx) {
+					pairs := runC41(fc, "testdata/c41/tree", "testdata/c41/tree/serial", "Store.Persist", "Store.LoadData", 0, 0)
+					runC41Tree(fc, "testdata/c41/tree", "Set", pairs, c41tFloors{})
+				})
 		},
-		FixturePkgs: []string{"./testdata/c41/db", "./testdata/c41/db/serial"},
+		FixturePkgs: []string{"./testdata/c41/db", "./testdata/c41/db/serial", "./testdata/c41/tree", "./testdata/c41/tree/serial"},
 	})
 }
 
